@@ -28,6 +28,7 @@ func runC01(c *Ctx) {
 	c.ruleR02c("R01c reset-only-after-progress", true)
 	c.ruleR01d("R01d cache-reuse-condition", false)
 	c.ruleCacheIdentity("R01d' cache-stores-what-it-returns")
+	c.ruleR01e("R01e result-built-from-current-path")
 }
 
 func isUnionCall(call *ssa.Call) bool {
@@ -554,4 +555,58 @@ func loopHeaderOf(b *ssa.BasicBlock) *ssa.BasicBlock {
 		}
 	}
 	return h
+}
+
+// ruleR01e: the slice of nodes a sequence hands to its result handler holds exactly the elements of the current
+// path: it is the scratch buffer bounded to the length whose validity was just tested (lenCheck(depth)), or nil.
+func (c *Ctx) ruleR01e(rule string) {
+	c.R.Rule(rule, "every HandleResult call gets nil or scratch[0:h] where h is the very length that the dominating length check accepted", 2)
+	for _, fn := range c.S.Sorted(c.S.Parser) {
+		if fn.Synthetic != "" {
+			continue
+		}
+		for _, call := range ssax.Calls(fn) {
+			cl, ok := call.(*ssa.Call)
+			if !ok || !cl.Call.IsInvoke() || cl.Call.Method.Name() != "HandleResult" || len(cl.Call.Args) != 4 {
+				continue
+			}
+			site := c.name(fn) + " HandleResult @" + c.P.InstrPos(cl)
+			nodes := cl.Call.Args[2]
+			if ssax.IsNilConst(nodes) {
+				c.R.Hold(rule, site, "nil: the empty result")
+				continue
+			}
+			sl, isSl := nodes.(*ssa.Slice)
+			ok2 := false
+			why := "the whole scratch buffer is passed instead of its first `depth` elements"
+			if isSl && sl.High != nil {
+				if sl.Low != nil {
+					if k, isC := ssax.ConstInt(sl.Low); !isC || k != 0 {
+						why = "the slice does not start at the first element of the path"
+					}
+				}
+				// a dominating, accepted length check on the same length
+				for _, cd := range ssax.DominatingConds(cl.Block()) {
+					k, isCall := cd.Val.(*ssa.Call)
+					if !isCall || !cd.Truth || k.Call.IsInvoke() || len(k.Call.Args) != 1 {
+						continue
+					}
+					if sig, ok := k.Call.Value.Type().Underlying().(*types.Signature); !ok || sig.Params().Len() != 1 || sig.Results().Len() != 1 {
+						continue
+					}
+					if k.Call.Args[0] == sl.High {
+						ok2 = true
+					}
+				}
+				if !ok2 {
+					why = "the upper bound of the slice is not the length accepted by the dominating length check"
+				}
+			}
+			if ok2 {
+				c.R.Hold(rule, site, "scratch[0:h] with h accepted by the dominating length check")
+			} else {
+				c.R.Violation(rule, c.name(fn)+" result from stale elements", c.name(fn), c.P.InstrPos(cl), why+": elements left in the scratch buffer by a longer path explored earlier become children of this result, so a tree that is not a derivation is returned (and its end position is wrong)")
+			}
+		}
+	}
 }
